@@ -33,8 +33,13 @@ def rules():
     single = [[{'mods': ml, 'targets': t}] for t in TARGET_SETS for ml in MODLISTS[:2]] + \
              [[{'mods': MODLISTS[2], 'targets': t}] for t in TARGET_SETS[:5]]
     pairs = []
-    for (t1, t2) in [(['K'], ['S']), (['K'], ['N-Term']), (['N-Term'], ['C-Term']), (['M'], ['K', 'S']),
-                     (['K'], ['K']), (['N-Term'], ['N-Term', 'K'])]:
+    # every ordered pair of target sets that share a target (the later rule extends what the earlier one put there),
+    # plus a few disjoint pairs
+    for t1 in TARGET_SETS:
+        for t2 in TARGET_SETS:
+            if set(t1) & set(t2) and not (len(t1) == 1 and len(t2) == 1 and t1 != t2):
+                pairs.append([{'mods': MODLISTS[0], 'targets': t1}, {'mods': MODLISTS[1], 'targets': t2}])
+    for (t1, t2) in [(['K'], ['S']), (['K'], ['N-Term']), (['N-Term'], ['C-Term']), (['M'], ['K', 'S'])]:
         pairs.append([{'mods': MODLISTS[0], 'targets': t1}, {'mods': MODLISTS[1], 'targets': t2}])
         pairs.append([{'mods': MODLISTS[1], 'targets': t1}, {'mods': MODLISTS[2], 'targets': t2}])
     return single + pairs
@@ -66,6 +71,8 @@ def gen(shard, tier):
             for ri in range(len(RULES)):
                 for pre in (None, 'n', 'c', 0, n - 1):
                     if pre == n - 1 and n == 1:
+                        continue
+                    if tier != 'thorough' and len(RULES[ri]) > 1 and pre not in (None, 0):
                         continue
                     yield {'kind': 'static', 'seq': seq, 'rule': ri, 'pre': pre}, 1 + (pre is not None), True
         else:
